@@ -211,7 +211,7 @@ def obligations(ctx):
 
 
 # ---------------------------------------------------------------- generic token-level round trip of struct-level codecs
-MUST_COVER = ['TransactionInput', 'ExUnits', 'UnitInterval', 'ExUnitPrices', 'ProtocolVersion', 'Redeemer', 'ConstrPlutusData', 'Vkeywitness', 'BootstrapWitness', 'Anchor', 'GovernanceActionId', 'VotingProcedure', 'PoolMetadata', 'Update', 'TransactionUnspentOutput', 'StakeDelegation', 'PoolRegistration', 'PoolRetirement', 'GenesisKeyDelegation', 'MoveInstantaneousRewardsCert', 'CommitteeHotAuth', 'CommitteeColdResign', 'DRepRegistration', 'DRepDeregistration', 'DRepUpdate', 'StakeAndVoteDelegation', 'StakeRegistrationAndDelegation', 'StakeVoteRegistrationAndDelegation', 'VoteDelegation', 'VoteRegistrationAndDelegation', 'VotingProposal', 'ParameterChangeAction', 'HardForkInitiationAction', 'TreasuryWithdrawalsAction', 'NoConfidenceAction', 'NewConstitutionAction', 'InfoAction', 'Constitution', 'Transaction', 'SingleHostAddr', 'SingleHostName', 'MultiHostName', 'PoolParams', 'DataOption', 'ScriptRef', 'Header', 'OperationalCert', 'TimelockStart', 'TimelockExpiry', 'ScriptPubkey', 'ScriptAll', 'ScriptAny', 'ScriptNOfK', 'DRepVotingThresholds', 'PoolVotingThresholds']
+MUST_COVER = ['TransactionInput', 'ExUnits', 'UnitInterval', 'ExUnitPrices', 'ProtocolVersion', 'Redeemer', 'ConstrPlutusData', 'Vkeywitness', 'BootstrapWitness', 'Anchor', 'GovernanceActionId', 'VotingProcedure', 'PoolMetadata', 'Update', 'TransactionUnspentOutput', 'StakeDelegation', 'PoolRegistration', 'PoolRetirement', 'GenesisKeyDelegation', 'MoveInstantaneousRewardsCert', 'CommitteeHotAuth', 'CommitteeColdResign', 'DRepRegistration', 'DRepDeregistration', 'DRepUpdate', 'StakeAndVoteDelegation', 'StakeRegistrationAndDelegation', 'StakeVoteRegistrationAndDelegation', 'VoteDelegation', 'VoteRegistrationAndDelegation', 'VotingProposal', 'ParameterChangeAction', 'HardForkInitiationAction', 'TreasuryWithdrawalsAction', 'NoConfidenceAction', 'NewConstitutionAction', 'InfoAction', 'Constitution', 'Transaction', 'SingleHostAddr', 'SingleHostName', 'MultiHostName', 'PoolParams', 'DataOption', 'ScriptRef', 'Header', 'OperationalCert', 'TimelockStart', 'TimelockExpiry', 'ScriptPubkey', 'ScriptAll', 'ScriptAny', 'ScriptNOfK', 'DRepVotingThresholds', 'PoolVotingThresholds', 'ProtocolParamUpdate']
 
 GENERIC_TYPES = [
     "TransactionInput", "ExUnits", "UnitInterval", "ExUnitPrices", "ProtocolVersion", "Redeemer", "ConstrPlutusData", "Vkeywitness", "BootstrapWitness",
@@ -222,7 +222,7 @@ GENERIC_TYPES = [
     "VotingProposal", "ParameterChangeAction", "HardForkInitiationAction", "TreasuryWithdrawalsAction", "NoConfidenceAction", "UpdateCommitteeAction", "NewConstitutionAction",
     "InfoAction", "GovernanceAction", "Constitution", "Transaction", "SingleHostAddr", "SingleHostName", "MultiHostName", "Relay", "PoolParams",
     "DataOption", "ScriptRef", "MoveInstantaneousReward", "Header", "OperationalCert", "HeaderBody", "TimelockStart", "TimelockExpiry", "ScriptPubkey", "ScriptAll", "ScriptAny", "ScriptNOfK",
-    "DRepVotingThresholds", "PoolVotingThresholds", "Nonce", "VRFCert", "Value", "TransactionOutput",
+    "DRepVotingThresholds", "PoolVotingThresholds", "Nonce", "VRFCert", "Value", "TransactionOutput", "ProtocolParamUpdate",
 ]
 
 
@@ -258,6 +258,21 @@ def indefinite_variant(toks):
     return toks[:p] + [(toks[p][0], None)] + toks[p + 1:end] + [("special", "Break", None)] + toks[end:]
 
 
+def presence_presets(P, ty, tier):
+    """for structs with many optional fields: base constraints fixing which Option fields are present (none, singles,
+    adjacent pairs — all pairs in the thorough tier —, all) instead of enumerating 2^n serializer paths"""
+    ftys = getattr(P, "struct_field_types", {}).get(ty)
+    if not ftys:
+        return None
+    opt_idx = [i for i, t in enumerate(ftys) if re.match(r"^(std::option::)?Option<", t)]
+    if len(opt_idx) < 9:
+        return None
+    combos = [frozenset(), frozenset(opt_idx)] + [frozenset([i]) for i in opt_idx]
+    combos += [frozenset(c) for c in (itertools.combinations(opt_idx, 2) if tier == "thorough" else zip(opt_idx, opt_idx[1:]))]
+    some = ENUM_STD["Option"].index("Some")
+    return [(sorted(c), [z3.Int("v.%d#d" % i) == (some if i in c else 1 - some) for i in opt_idx]) for c in dict.fromkeys(combos)]
+
+
 def generic_roundtrip(ctx, tys, name, claim=None):
     P = ctx.P
     per_type = {}
@@ -271,11 +286,27 @@ def generic_roundtrip(ctx, tys, name, claim=None):
     for ty in tys:
         try:
             local = Obligation(ctx, name + ":" + ty)
-            E = Engine(P, max_loop=12)
-            CM.install(E, target=ty)
-            outs = E.explore("<%s as cbor_event::se::Serialize>::serialize" % ty, lambda: [R(VLazy("v", ty), "self"), R(CM.VSer(), "ser")], max_paths=400)
+            presets = presence_presets(P, ty, ctx.tier)
+            outs = []
+            for combo, base in (presets or [(None, [])]):
+                E = Engine(P, max_loop=12 if presets is None else 80)
+                CM.install(E, target=ty)
+                E.base = list(base)
+                po = E.explore("<%s as cbor_event::se::Serialize>::serialize" % ty, lambda: [R(VLazy("v", ty), "self"), R(CM.VSer(), "ser")], max_paths=400)
+                if presets is not None:
+                    for o in po:
+                        # a keyed struct: whatever subset of fields is present, the emitted map must be well formed
+                        if o.kind == "return" and o.value.variant == "Ok":
+                            tk = list(VM.deref(E, o.args[1]).tokens)
+                            if CM.item_end(tk, 0) != len(tk):
+                                local.violation("%s with optional fields %s present: emitted tokens are not one well-formed item (declared length %s, %d tokens follow)" % (ty, combo, tk[0][1] if tk else None, len(tk) - 1))
+                        elif o.kind != "bound":
+                            local.violation("%s with optional fields %s present: serializer does not return Ok (%s %s)" % (ty, combo, o.kind, o.msg[:80]))
+                outs += [(E, o) for o in po]
+                if presets is not None:
+                    agg.stats["paths"] += E.stats["paths"]; agg.stats["feasibility_queries"] += E.stats["feasibility_queries"]; agg.stats["functions"] |= E.stats["functions"]
             npaths = 0
-            for o in outs:
+            for E, o in outs:
                 if o.kind == "bound":
                     continue
                 if o.kind != "return" or o.value.variant != "Ok":
